@@ -5,10 +5,22 @@ exactly the edges of the tables it opened. -/
 namespace EupsModel.Deps
 open EupsModel
 
-/-- no table of the database has an `unsetupRequired` / `unsetupOptional` line -/
-def NoUnsetup (db : Db) : Prop := ∀ d ∈ db.decls, ∀ x ∈ d.deps, x.unsetup = false
+/-- "plain" tables: no table of the database has an `unsetupRequired` / `unsetupOptional` line, and every
+declared table file exists.  (The name is kept from the first version of these proofs, where only the first
+half was needed; the property says nothing about unsetup lines or about products whose table cannot be read.) -/
+def NoUnsetup (db : Db) : Prop :=
+  (∀ d ∈ db.decls, ∀ x ∈ d.deps, x.unsetup = false) ∧ (∀ d ∈ db.decls, d.tableMissing = false)
 
 instance (db : Db) : Decidable (NoUnsetup db) := by unfold NoUnsetup; infer_instance
+
+theorem tableMissing_false {db : Db} (h : NoUnsetup db) (p : Prod) : db.tableMissing p = false := by
+  unfold Db.tableMissing
+  split
+  · split
+    · rename_i d hd
+      exact h.2 d (List.mem_of_find?_eq_some hd)
+    · rfl
+  · rfl
 
 theorem table_noUnsetup {db : Db} (h : NoUnsetup db) (p : Prod) : ∀ x ∈ db.table p, x.unsetup = false := by
   intro x hx
@@ -16,7 +28,7 @@ theorem table_noUnsetup {db : Db} (h : NoUnsetup db) (p : Prod) : ∀ x ∈ db.t
   split at hx
   · split at hx
     · rename_i d hd
-      exact h d (List.mem_of_find?_eq_some hd) x hx
+      exact h.1 d (List.mem_of_find?_eq_some hd) x hx
     · simp at hx
   · simp at hx
 
@@ -122,7 +134,7 @@ structure LoopPost (db : Db) (req : Required) (top : Prod) (ds : List Dep) (acc 
 theorem depsLoop_cons_setup (db : Db) (req : Required)
     (recur : Prod → Nat → St → Option (List Entry × St)) (fresh : Prod → Option (List Str))
     (top : Prod) (recursive : Bool) (depth : Nat) (d : Dep) (ds : List Dep) (acc : List Entry) (st : St)
-    (hd : d.unsetup = false) :
+    (hd : d.unsetup = false) (hm : ∀ p, db.tableMissing p = false) :
     depsLoop db req recur fresh top recursive depth (d :: ds) acc st =
       match resolve db req d with
       | none =>
@@ -142,7 +154,7 @@ theorem depsLoop_cons_setup (db : Db) (req : Required)
             (acc ++ [⟨p, d.optional, if recursive then some depth else none⟩])
             { st with edges := st.edges ++ [(top, p)] } := by
   rw [depsLoop]
-  simp only [hd, Bool.false_eq_true, if_false]
+  simp only [hd, Bool.false_eq_true, if_false, hm]
   rfl
 
 theorem LoopPost.cons_plain {db : Db} {req : Required} {top : Prod} {d : Dep} {ds : List Dep}
@@ -260,7 +272,7 @@ theorem LoopPost.cons_rec {db : Db} {req : Required} {top p : Prod} {d : Dep} {d
 /-- the loop over the lines of `top`'s table, given that the recursive call keeps its promise -/
 theorem depsLoop_post (db : Db) (req : Required)
     (recur : Prod → Nat → St → Option (List Entry × St)) (fresh : Prod → Option (List Str))
-    (top : Prod) (depth : Nat)
+    (top : Prod) (depth : Nat) (hm : ∀ p, db.tableMissing p = false)
     (hrec : ∀ p dp st out st', recur p dp st = some (out, st') → CallPost db req p st out st') :
     ∀ ds acc st out st', (∀ d ∈ ds, d.unsetup = false) → (∀ d ∈ ds, d ∈ db.table top) →
       depsLoop db req recur fresh top true depth ds acc st = some (out, st') →
@@ -278,7 +290,7 @@ theorem depsLoop_post (db : Db) (req : Required)
                  closed_new := fun k hk hnk => absurd hk hnk }⟩
   | cons d ds ih =>
     intro acc st out st' hu ht h
-    rw [depsLoop_cons_setup _ _ _ _ _ _ _ _ _ _ _ (hu d (by simp))] at h
+    rw [depsLoop_cons_setup _ _ _ _ _ _ _ _ _ _ _ (hu d (by simp)) hm] at h
     have hdt : d ∈ db.table top := ht d (by simp)
     have hu' : ∀ d ∈ ds, d.unsetup = false := fun x hx => hu x (by simp [hx])
     have ht' : ∀ d ∈ ds, d ∈ db.table top := fun x hx => ht x (by simp [hx])
@@ -320,7 +332,7 @@ theorem depsOf_post (db : Db) (hns : NoUnsetup db) (req : Required) :
   | succ k ih =>
     intro top depth st out st' h
     unfold depsOf at h
-    obtain ⟨new, P⟩ := depsLoop_post db req _ _ top depth (fun p dp st out st' hq => ih p dp st out st' hq)
+    obtain ⟨new, P⟩ := depsLoop_post db req _ _ top depth (tableMissing_false hns) (fun p dp st out st' hq => ih p dp st out st' hq)
       _ _ _ _ _ (table_noUnsetup hns top) (fun _ h => h) h
     have hout : out = new := by rw [P.out_eq]; simp
     subst hout
